@@ -3,6 +3,9 @@
 Part A (life-cycle, sched-evt): the wire between two live transports is gated; the handshake is driven
 one delivered write at a time and at every quiescent point a user thread calls one auth_* method.
 Part B: Transport.connect(hostkey=...) against servers presenting the same / another key.
+Parts A and B are crossed with the process history {no earlier session, a complete genuine session with the same
+host key / the expected host key took place in this process before}; "verified" in part A is the harness's own
+verification (vmc/refs/exhash.py) of the signature the client accepted, not the client's word for it.
 Part C: SSHClient.connect(sock=VSock) over a grid of known_hosts contents x policies x stores x ports x GSS-API
 option x credential source (password / pkey / auth_strategy) x client history (fresh / used before for another
 host), judged by the independent reference vmc/refs/hostaccept.py.
@@ -14,6 +17,7 @@ import warnings
 
 from vmc import core, enum, fixtures as F, connfix as CF, vsocket, vthreading
 from vmc.refs import hostaccept as H
+from vmc.refs import exhash as X
 import paramiko
 from paramiko import Transport, SSHClient, InteractiveQuery, AUTH_SUCCESSFUL
 from paramiko.ssh_exception import SSHException
@@ -29,9 +33,15 @@ META = {
             "publickey, keyboard-interactive, none}: the call is made at EVERY quiescent point (before "
             "start_client, after each delivered write, after completion); oracle on the wire: no plaintext "
             "packet of type 5/6/50-79 from the client, the secret never visible in the byte stream, first "
-            "USERAUTH_REQUEST/INFO_RESPONSE only after _verify_key succeeded and NEWKEYS was sent, server "
+            "USERAUTH_REQUEST/INFO_RESPONSE only after _verify_key succeeded WITH a signature that the reference "
+            "verifier (vmc/refs/exhash.py: cryptography / nacl, no paramiko) confirms over the exchange hash under "
+            "the presented key blob, and NEWKEYS was sent, server "
             "callbacks see credentials only then. B: Transport.connect(hostkey=K) for K in {same, other key same "
-            "type, other type} x 5 server key sets x {password, pkey}. C: SSHClient.connect over 16 known_hosts "
+            "type, other type} x 5 server key sets x {password, pkey}. Dimension 'process history' (A and B, full "
+            "cross): {no earlier session, an earlier complete genuine session in the same process - new transports, "
+            "same host key (A) / a server really holding the expected key K (B), host key verified, password "
+            "accepted, closed again}; the connection under test starts from that non-initial process state. "
+            "C: SSHClient.connect over 16 known_hosts "
             "shapes (same key, different key same type, only other types, hashed, [host]:port, default-port-only "
             "vs other port, other host, empty, two server key types) x 5 policies x {load_host_keys, "
             "load_system_host_keys} x GSS-API option {not requested, gss_kex requested but not negotiated, "
@@ -76,13 +86,17 @@ def getkey(name):
 
 
 class VTransport(Transport):
-    """Transport that marks the moment host-key verification succeeded in the shared wire log."""
+    """Transport that marks the moment host-key verification succeeded in the shared wire log.  "Succeeded" is
+    not taken on the client's word: the signature it accepted is verified again over the exchange hash under the
+    presented key blob by the reference verifier (cryptography / nacl directly); an acceptance the reference
+    does not confirm is logged as "accepted-unverified" and does not count as a verification."""
 
     def _verify_key(self, host_key, sig):
         Transport._verify_key(self, host_key, sig)
+        ok, _alg = X.verify_signature(bytes(host_key), bytes(sig), bytes(self.H))
         gl = self.packetizer.global_log
         if gl is not None:
-            gl.append((self.packetizer.side, "verified", 0, 0, b""))
+            gl.append((self.packetizer.side, "verified" if ok else "accepted-unverified", 0, 0, b""))
 
 
 def make_server():
@@ -180,6 +194,41 @@ def gss_kwargs(gss):
     return {}
 
 
+# ============================================================================== process history
+HISTORIES = ("none", "genuine-session-before")
+
+
+def genuine_session(s, hostkey, kex=None, connect_with_hostkey=False):
+    """History of the PROCESS: a complete genuine session on new transports - real server that holds `hostkey`,
+    host key signature verified (reference verifier), password accepted - closed again before the connection
+    under test is even created.  Whatever the library keeps beyond the life of a Transport is now in its
+    non-initial state."""
+    ckw = {"disabled_algorithms": {"kex": [k for k in Transport._preferred_kex if k != kex]}} if kex else None
+    p0 = F.Pair(server=make_server(), hostkeys=(), tclass=VTransport, client_kw=ckw)
+    p0.ts.add_server_key(hostkey)
+    if kex and kex.startswith("diffie-hellman-group-exchange"):
+        p0.ts._modulus_pack = CF.modulus_pack()
+    p0.tc.auth_timeout = 5
+    try:
+        if connect_with_hostkey:
+            p0.ts.start_server(paramiko.transport.threading.Event(), p0.server)
+            p0.tc.connect(hostkey=hostkey, username="alice", password=SECRET)
+        else:
+            p0.start()
+            p0.tc.auth_password("alice", SECRET)
+        s.quiesce()
+        marks = [e[1] for e in p0.glog if e[0] == "c" and e[1] in ("verified", "accepted-unverified")]
+        if not p0.tc.is_authenticated() or marks != ["verified"]:
+            raise RuntimeError("C17 harness: the genuine earlier session did not come up (%r)" % (marks,))
+    finally:
+        p0.close()
+        s.quiesce()
+
+
+def hist_sfx(prior):
+    return "" if prior == "none" else ":" + prior
+
+
 # ============================================================================== part A
 AUTH_CALLS = ("password", "password-event", "publickey", "interactive", "none")
 SCENARIOS = ("honest", "bad-signature", "rekey", "closed")
@@ -225,13 +274,15 @@ def deliver_one(p, order):
     return 0
 
 
-def lifecycle(kex, scenario, order, method, point):
+def lifecycle(kex, scenario, order, method, point, prior="none"):
     """One execution.  point: 'pre-start' | int n (the call is made after n delivered writes of the phase
-    under study) | None (never: probe that counts the points)."""
+    under study) | None (never: probe that counts the points).  prior: process history (HISTORIES)."""
     out = {"deliveries": 0}
     hold = {}
 
     def body(s):
+        if prior != "none":
+            genuine_session(s, F.key("ed25519"), kex=kex)     # same host key as the server under test
         srv = make_server()
         p = F.Pair(server=srv, gated=True, tclass=VTransport,
                    client_kw={"disabled_algorithms": {"kex": [k for k in Transport._preferred_kex if k != kex]}})
@@ -336,44 +387,55 @@ def wire_facts(p, srv):
     stream = b"".join(bytes(it) for it in items if it is not vsocket.EOF_MARK)
     f["secret_on_wire"] = (SECRET.encode() in stream) or (SECRET2.encode() in stream)
     # 2. order of events in the global log
-    idx_verified = idx_newkeys = idx_cred = idx_svc = None
+    idx_verified = idx_newkeys = idx_cred = idx_svc = idx_unverified = None
     for i, ent in enumerate(p.glog):
         side, what, t = ent[0], ent[1], ent[2]
         if side != "c":
             continue
         if what == "verified" and idx_verified is None:
             idx_verified = i
+        elif what == "accepted-unverified" and idx_unverified is None:
+            idx_unverified = i
         elif what == "tx" and t == 21 and idx_newkeys is None:
             idx_newkeys = i
         elif what == "tx" and t in (50, 61) and idx_cred is None:
             idx_cred = i
         elif what == "tx" and t == 5 and idx_svc is None:
             idx_svc = i
-    f["idx"] = dict(verified=idx_verified, newkeys=idx_newkeys, first_cred=idx_cred, first_service_request=idx_svc)
+    f["idx"] = dict(verified=idx_verified, newkeys=idx_newkeys, first_cred=idx_cred, first_service_request=idx_svc,
+                    accepted_unverified=idx_unverified)
     f["server_auth_log"] = [e[0] for e in srv.log if is_auth_entry(e)]
     f["server_rcvd_auth_types"] = [t for t, _, _ in p.ts.packetizer.rcvd if t in AUTH_TYPES]
     return f
 
 
 def judge_a(case, o):
-    kex, scenario, order, method, point = case
+    kex, scenario, order, method, point, prior = case
+    sfx = hist_sfx(prior)
     v = []
     if o["outcome"] not in ("ok",):
-        return [("A:no-quiescence(%s):%s" % (o["outcome"], method), o["error"])]
+        return [("A:no-quiescence(%s):%s%s" % (o["outcome"], method, sfx), o["error"])]
     bad_plain = [t for t in o["plaintext_types"] if t in AUTH_TYPES]
     if bad_plain:
         kind = "userauth-service-request" if set(bad_plain) <= {5, 6} else "credential-packet"
-        v.append(("A:plaintext-%s:auth_%s" % (kind, method), {"plaintext_types": o["plaintext_types"]}))
+        v.append(("A:plaintext-%s:auth_%s%s" % (kind, method, sfx), {"plaintext_types": o["plaintext_types"]}))
     if o["secret_on_wire"]:
-        v.append(("A:secret-visible-in-byte-stream:auth_%s" % method, None))
+        v.append(("A:secret-visible-in-byte-stream:auth_%s%s" % (method, sfx), None))
     ix = o["idx"]
     if ix["first_cred"] is not None:
         if ix["verified"] is None or ix["first_cred"] < ix["verified"]:
-            v.append(("A:credentials-before-host-key-verified:auth_%s" % method, ix))
+            au = ix.get("accepted_unverified")
+            if au is not None and au < ix["first_cred"]:
+                # the client declared the host key verified, the reference verifier does not confirm the
+                # signature it accepted: the server never proved possession of the host key
+                v.append(("A:credentials-sent-after-accepting-invalid-host-key-signature:auth_%s%s" % (method, sfx),
+                          ix))
+            else:
+                v.append(("A:credentials-before-host-key-verified:auth_%s%s" % (method, sfx), ix))
         elif ix["newkeys"] is None or ix["first_cred"] < ix["newkeys"]:
-            v.append(("A:credentials-before-NEWKEYS:auth_%s" % method, ix))
+            v.append(("A:credentials-before-NEWKEYS:auth_%s%s" % (method, sfx), ix))
     if ix["verified"] is None and (o["server_auth_log"] or o["server_rcvd_auth_types"]):
-        v.append(("A:unverified-server-received-auth:auth_%s" % method,
+        v.append(("A:unverified-server-received-auth:auth_%s%s" % (method, sfx),
                   {"log": o["server_auth_log"], "types": o["server_rcvd_auth_types"]}))
     return v
 
@@ -393,7 +455,8 @@ def cases_a(tier):
                 pts = (["pre-start"] if scenario == "honest" else []) + list(range(n + 1))
                 for method in AUTH_CALLS:
                     for pt in pts:
-                        out.append(("A", (kex, scenario, order, method, pt)))
+                        for prior in HISTORIES:
+                            out.append(("A", (kex, scenario, order, method, pt, prior)))
     return out
 
 
@@ -402,12 +465,15 @@ SERVER_KEYSETS = (("ed25519",), ("rsa",), ("ecdsa-256",), ("ed25519", "rsa"), ("
 EXPECTED = ("ed25519", "ed25519-b", "rsa", "rsa-b", "ecdsa-256", "ecdsa-256-b")
 
 
-def connect_b(keyset, expected, how, gss="none"):
+def connect_b(keyset, expected, how, gss="none", prior="none"):
     out = {}
     hold = {}
     gkw = gss_kwargs(gss)
 
     def body(s):
+        if prior != "none":
+            # earlier in this process: Transport.connect(hostkey=K) to a server that really holds K
+            genuine_session(s, getkey(expected), connect_with_hostkey=True)
         srv = make_server()
         p = F.Pair(server=srv, hostkeys=keyset, tclass=VTransport,
                    client_kw={"gss_kex": True} if gss == "gss-kex-requested" else None)
@@ -440,8 +506,8 @@ def connect_b(keyset, expected, how, gss="none"):
 
 
 def judge_b(case, o):
-    keyset, expected, how, gss = case
-    sfx = "" if gss == "none" else ":" + gss
+    keyset, expected, how, gss, prior = case
+    sfx = ("" if gss == "none" else ":" + gss) + hist_sfx(prior)
     if o["outcome"] != "ok":
         return [("B:no-quiescence(%s)%s" % (o["outcome"], sfx), o["error"])]
     exp = getkey(expected)
@@ -700,18 +766,24 @@ def judge_c(case, o):
 _TMP = []
 
 
+_EARLIER = [0]      # cases this (worker) process has executed before the current one
+
+
 def run_items(item, acc):
     try:
         for part, case in item:
+            earlier, _EARLIER[0] = _EARLIER[0], _EARLIER[0] + 1
             acc.ev()
             acc.count("executions_part_" + part)
             if part == "A":
                 o = lifecycle(*case)
                 vs = judge_a(case, o)
-                kex, scenario, order, method, point = case
+                kex, scenario, order, method, point, prior = case
                 la = o.get("launched_at") or {}
                 # nontrivial: the call really happened at a distinct protocol position
-                acc.nt(("A", kex, scenario, order, method, str(point)))
+                acc.nt(("A", kex, scenario, order, method, str(point), prior))
+                if prior != "none":
+                    acc.count("A_" + prior)
                 if o.get("idx", {}).get("first_cred") is not None:
                     acc.count("A_runs_where_credentials_were_sent(after verification)")
                 if o.get("result", ("",))[0] == "exc":
@@ -720,7 +792,7 @@ def run_items(item, acc):
                     acc.count("A_calls_authenticated")
                 if not vs and len([1 for x in acc.samples if x.get("part") == "A"]) < 2 and point not in (None,) \
                         and isinstance(point, int) and point in (3, 9):
-                    acc.sample({"part": "A", "kex": kex, "scenario": scenario, "order": order,
+                    acc.sample({"part": "A", "kex": kex, "scenario": scenario, "order": order, "process_history": prior,
                                 "call": "auth_" + method, "after_deliveries": point, "state_at_call": la,
                                 "api_result": o.get("result"), "client_plaintext_types": o.get("plaintext_types"),
                                 "event_indices": o.get("idx"), "server_auth_callbacks": o.get("server_auth_log")})
@@ -731,11 +803,13 @@ def run_items(item, acc):
                 vs, cls = r if isinstance(r, tuple) else (r, "?")
                 acc.nt(("B",) + tuple(map(str, case)) + (cls,))
                 acc.count("B_" + cls)
+                if case[4] != "none":
+                    acc.count("B_" + case[4])
                 if cls == "same-key" and o.get("server_auth_log"):
                     acc.count("B_accepted_and_authenticated")
                 if not vs and cls == "other-key-same-type" and not any(x.get("part") == "B" for x in acc.samples):
                     acc.sample({"part": "B", "server_keys": case[0], "expected": case[1], "auth": case[2],
-                                "gss_option": case[3],
+                                "gss_option": case[3], "process_history": case[4],
                                 "presented": o["presented"][0], "api_result": o["result"],
                                 "server_auth_callbacks": o["server_auth_log"],
                                 "server_rcvd_auth_types": o["server_rcvd_auth_types"]})
@@ -771,8 +845,11 @@ def run_items(item, acc):
                                 "reference": o.get("ref"), "api_result": o.get("result"),
                                 "server_auth_callbacks": o.get("server_auth_log")})
                 rep = {"part": "C", "case": [cfg[0], policy, store, gss, how, prior]}
+            # a worker executes many cases: for a case with process history "none" the sessions of the earlier
+            # cases ARE an (undeclared) history; recorded so that --replay can put a genuine session in front
+            rep["earlier_cases_in_process"] = earlier
             for key, detail in vs:
-                acc.violation(key, {"case": rep["case"], "detail": detail}, rep)
+                acc.violation(key, {"case": rep["case"], "detail": detail, "earlier_cases_in_process": earlier}, rep)
     finally:
         pass
 
@@ -788,7 +865,8 @@ def build_items(tier):
         for exp in EXPECTED:
             for how in ("password", "pkey"):
                 for gss in GSS_MODES:
-                    items.append(("B", (ks, exp, how, gss)))
+                    for prior in HISTORIES:
+                        items.append(("B", (ks, exp, how, gss, prior)))
     for cfg in kh_configs():
         for pol in POLICIES:
             for store in STORES:
@@ -804,13 +882,18 @@ def build_items(tier):
 
 def main(tier):
     ck = core.Check(PID, tier, "exploration",
-                    "A: case = (kex, scenario, delivery order, auth call, quiescent point at which it is made); "
-                    "B: (server key set, expected key, auth, GSS option); C: (known_hosts shape, policy, store, GSS "
+                    "A: case = (kex, scenario, delivery order, auth call, quiescent point at which it is made, process "
+                    "history: none / a genuine session with the same host key before); "
+                    "B: (server key set, expected key, auth, GSS option, process history: none / a genuine "
+                    "Transport.connect(hostkey=K) session with a holder of K before); C: (known_hosts shape, policy, store, GSS "
                     "option: none / gss_kex requested but not negotiated / gss_auth requested, credential source: "
                     "password / pkey / auth_strategy, client history: fresh / used for another host before). nontrivial = "
                     "distinct cases in which the connection was really driven to that point / configuration and "
                     "the peer-side trace was inspected",
                     ["peer = real paramiko server Transport; gated virtual wire, one write delivered per step",
+                     "process history 'none' = no earlier session inside the case (a worker process executes many cases "
+                     "one after the other); the exchange hash the reference verifier checks the accepted signature "
+                     "against is the client's own H (its assembly is C06's subject)",
                      "two canonical delivery orders, not all packet crossings",
                      "known_hosts without wildcards / markers; one hostname; ports 22 and 2222",
                      "GSS-API: library stand-in on the client (no credentials), server offers no GSS-API method; "
@@ -827,14 +910,33 @@ def main(tier):
 
 def replay(rec):
     r = rec["replay"]
+    if (r["part"] in "AB" and r.get("earlier_cases_in_process") and "genuine-session-before" not in r["case"]
+            and len(r["case"]) == (6 if r["part"] == "A" else 5)):
+        # found with process history "none" in a worker that had run other cases before: try as recorded, then
+        # with the declared equivalent of that history
+        if _replay(rec) == 1:
+            return 1
+        print("--- not reproduced in a fresh process; the finding process had executed %d cases before: "
+              "replaying with process history 'genuine-session-before'" % r["earlier_cases_in_process"])
+        rec2 = dict(rec, replay=dict(r, case=list(r["case"][:-1]) + ["genuine-session-before"]),
+                    key=rec["key"] + hist_sfx("genuine-session-before"))
+        return _replay(rec2)
+    return _replay(rec)
+
+
+def _replay(rec):
+    r = rec["replay"]
     tmp = tempfile.mkdtemp(prefix="c17-", dir="/dev/shm")
     try:
         if r["part"] == "A":
             case = tuple(r["case"])
+            if len(case) == 5:
+                case += ("none",)
             o = lifecycle(*case)
             vs = judge_a(case, o)
         elif r["part"] == "B":
-            case = (tuple(r["case"][0]), r["case"][1], r["case"][2], r["case"][3] if len(r["case"]) > 3 else "none")
+            case = (tuple(r["case"][0]), r["case"][1], r["case"][2], r["case"][3] if len(r["case"]) > 3 else "none",
+                    r["case"][4] if len(r["case"]) > 4 else "none")
             o = connect_b(*case)
             vs = judge_b(case, o)[0]
         else:
